@@ -60,17 +60,17 @@ func (ex *Exec) intercept(st *State, th *Thread, f *Frame, fn *ssa.Function, arg
 		switch name {
 		case "verifAssume":
 			cond := args[0].(*Term)
-			r, m := ex.feasible(st, cond)
-			if r == Unsat {
+			if cond.Op == OConst && cond.C == 0 {
 				ex.rep.AssumePruned++
-				ex.endPath(st, "assume-false")
+				st.ended = true
 				return nil, true
 			}
-			if r == Unknown {
-				ex.rep.Unknowns = append(ex.rep.Unknowns, "assumption feasibility undecided at "+ex.site(f))
+			// lazy: no solver call here; an unsatisfiable assumption is caught by the
+			// feasibility check at the end of the path (no path completes, no reach point)
+			if ok, have := ex.modelHolds(st, cond); !have || !ok {
+				st.model = nil
 			}
 			ex.addPC(st, cond)
-			st.model = m
 			return ret(nil)
 		case "verifAssert":
 			cond := args[0].(*Term)
@@ -90,6 +90,12 @@ func (ex *Exec) intercept(st *State, th *Thread, f *Frame, fn *ssa.Function, arg
 			return ret(BoolC(ok && t.Op != OConst))
 		case "verifNoMerge":
 			return ret(nil)
+		case "verifAnd":
+			return ret(c.And(args[0].(*Term), args[1].(*Term)))
+		case "verifOr":
+			return ret(c.Or(args[0].(*Term), args[1].(*Term)))
+		case "verifIte":
+			return ret(c.Ite(args[0].(*Term), args[1].(*Term), args[2].(*Term)))
 		}
 	}
 	pkg := ""
@@ -174,6 +180,7 @@ func (ex *Exec) checkAssert(st *State, f *Frame, cond *Term, msg string) {
 	for _, n := range st.nondets {
 		extraVars = append(extraVars, n.T)
 	}
+	ex.sol.Purpose = "assert: " + msg
 	r, m := ex.sol.Check(q, true, extraVars)
 	switch r {
 	case Unsat:
